@@ -39,6 +39,8 @@ class RefSim:
         self.data = spec["data"]
         if any(p.get("deriv") for p in spec["pars"]):
             raise Unsupported("derivative parameters")
+        if len(spec.get("pop_types") or []) > 1:
+            raise Unsupported("several population types")
         # duration groups
         self.group = {}  # comp -> timed parameter
         for a, b, what in spec["links"]:
